@@ -87,7 +87,7 @@ func sigs(nodes []*Node) []*common.SignatureData {
 // EdKeygenQuiet runs a FIFO fault-free EdDSA keygen as a prelude and validates it with the C03
 // oracle (so that a broken keygen cannot silently feed a signing check).
 func (rc *RunCtx) EdKeygenQuiet(tag string, idk []*big.Int, t int) ([]edkg.LocalPartySaveData, tss.SortedPartyIDs, bool) {
-	ck := fmt.Sprintf("ed|%d|%d|%v", len(idk), t, idk)
+	ck := fmt.Sprintf("ed|%s|%d|%d|%v", PIDStrings, len(idk), t, idk)
 	if c, ok := edKeyCache[ck]; ok {
 		rc.Res.Probes["prelude_cache_hit"]++
 		return cloneEdKeys(c.keys), clonePIDs(c.pids), true
